@@ -4,6 +4,7 @@ import (
 	"archive/tar"
 	"archive/zip"
 	"bytes"
+	"compress/flate"
 	"encoding/binary"
 	"hash/crc32"
 	"strings"
@@ -14,9 +15,11 @@ import (
 type zipEntry struct {
 	Name    string
 	Body    []byte
-	Storage int  // 0 deflate+descriptor (Create), 1 store+descriptor (CreateHeader), 2 store, sizes in local header (CreateRaw)
+	Storage int  // 0 deflate+descriptor (Create), 1 store+descriptor (CreateHeader), 2 store, sizes in local header (CreateRaw), 3 deflate, sizes in local header (CreateRaw)
 	Extra   bool // extended timestamp extra field (Modified set)
 }
+
+var deflateCache = map[string][]byte{}
 
 // buildZip writes the entries with the standard library's zip writer.
 func buildZip(entries []zipEntry) []byte {
@@ -52,6 +55,28 @@ func buildZip(entries []zipEntry) []byte {
 				panic(err)
 			}
 			f.Write(e.Body)
+		case 3:
+			// deflated, sizes recorded in the local header, no data descriptor
+			// (what Info-ZIP and office suites write)
+			comp, ok := deflateCache[string(e.Body)]
+			if !ok {
+				var cb bytes.Buffer
+				fw, _ := flate.NewWriter(&cb, flate.BestCompression)
+				fw.Write(e.Body)
+				fw.Close()
+				comp = cb.Bytes()
+				deflateCache[string(e.Body)] = comp
+			}
+			cb := bytes.NewBuffer(comp)
+			fh.Method = zip.Deflate
+			fh.CRC32 = crc32.ChecksumIEEE(e.Body)
+			fh.CompressedSize64 = uint64(cb.Len())
+			fh.UncompressedSize64 = uint64(len(e.Body))
+			f, err := w.CreateRaw(fh)
+			if err != nil {
+				panic(err)
+			}
+			f.Write(cb.Bytes())
 		}
 	}
 	if err := w.Close(); err != nil {
